@@ -12,8 +12,8 @@ import ast
 
 from ..dataflow import RD
 from ..exprmodel import expression_classes
-from ..loader import AnalysisError, ClassInfo, FuncInfo, Tree, unparse, walk_function
-from ..ncterms import NC, NCEval, nc_func
+from ..loader import AnalysisError, FuncInfo, Tree, unparse, walk_function
+from ..ncterms import NC, nc_func
 from ..poly import RF, D
 from ..report import Check
 
@@ -65,11 +65,16 @@ def available_sources(tree: Tree, fn: FuncInfo, p: str, classes) -> dict:
                 if p in sym:
                     src["self_args_index"] = sym.index(p)
         else:
-            init = top.cls.methods.get("__init__")
-            if init is not None and p in init.params:
+            for name in ("__init__", "__post_init__", "__attrs_post_init__"):
+                init = top.cls.methods.get(name)
+                if init is None:
+                    continue
                 for node in walk_function(init.node):
-                    if isinstance(node, ast.Attribute) and isinstance(node.ctx, ast.Store) and node.attr == p:
+                    if isinstance(node, ast.Attribute) and isinstance(node.ctx, ast.Store) and node.attr.lstrip("_") == p:
                         src["self_attr"] = True
+            # a field of a dataclass / attrs class (`phsp_factor: PhaseSpaceFactorProtocol = PhaseSpaceFactor` in the class body)
+            if any(isinstance(st, ast.AnnAssign) and isinstance(st.target, ast.Name) and st.target.id.lstrip("_") == p for st in top.cls.node.body):
+                src["self_attr"] = True
     # parameters annotated with a repo class that has a field p (variable_pool.angular_momentum)
     for a in [*top.node.args.args, *fn.node.args.args]:
         if a.annotation is not None:
@@ -88,10 +93,10 @@ def arg_derives(tree: Tree, fn: FuncInfo, rd: RD, arg: ast.AST, p: str, src: dic
     exprs = [arg, *[d.value for d in closure if d.value is not None]]
     for e in exprs:
         for n in ast.walk(e):
-            if isinstance(n, ast.Attribute) and n.attr == p and isinstance(n.value, ast.Name):
+            if isinstance(n, ast.Attribute) and n.attr.lstrip("_") == p and isinstance(n.value, ast.Name):
                 if n.value.id == "self" and src["self_attr"]:
                     return True
-                if n.value.id in src["param_attr"]:
+                if n.value.id in src["param_attr"] and n.attr == p:
                     return True
     if src["self_args_index"] is not None:
         for d in closure:
@@ -102,9 +107,213 @@ def arg_derives(tree: Tree, fn: FuncInfo, rd: RD, arg: ast.AST, p: str, src: dic
     return False
 
 
+def _single_value(rd: RD, node: ast.AST) -> ast.AST | None:
+    """The one expression a local name stands for (single reaching assignment), else None."""
+    if not isinstance(node, ast.Name):
+        return None
+    defs = rd.reaching(node)
+    if len(defs) != 1:
+        return None
+    d = next(iter(defs))
+    if d.kind != "assign" or d.value is None or d.index is not None or isinstance(d.node, ast.AugAssign):
+        return None
+    return d.value
+
+
+def _mapping_items(tree: Tree, fn: FuncInfo, rd: RD, node: ast.AST, depth: int = 0) -> dict[str, ast.AST] | None:
+    """keyword -> value expression of a ``**mapping`` argument, if the mapping can be read: a dict display with
+    constant keys (``{**base, "k": v}`` merged), ``dict(k=v, ...)`` / ``dict(base, k=v)``, or a local bound once to
+    such a value and not modified afterwards.  None: the mapping is not known."""
+    if depth > 4:
+        return None
+    if isinstance(node, ast.Name):
+        value = _single_value(rd, node)
+        if value is None:
+            return None
+        # the mapping must not be written to between its definition and its use
+        for n in walk_function(fn.node):
+            if isinstance(n, ast.Subscript) and isinstance(n.ctx, (ast.Store, ast.Del)) and isinstance(n.value, ast.Name) and n.value.id == node.id:
+                return None
+            if isinstance(n, ast.Call) and isinstance(n.func, ast.Attribute) and isinstance(n.func.value, ast.Name) and n.func.value.id == node.id \
+                    and n.func.attr in {"update", "pop", "setdefault", "clear", "popitem", "__setitem__"}:
+                return None
+        return _mapping_items(tree, fn, rd, value, depth + 1)
+    if isinstance(node, ast.Dict):
+        out: dict[str, ast.AST] = {}
+        for k, v in zip(node.keys, node.values):
+            if k is None:
+                inner = _mapping_items(tree, fn, rd, v, depth + 1)
+                if inner is None:
+                    return None
+                out.update(inner)
+            elif isinstance(k, ast.Constant) and isinstance(k.value, str):
+                out[k.value] = v
+            else:
+                return None
+        return out
+    if isinstance(node, ast.Call) and isinstance(node.func, ast.Name) and node.func.id == "dict" and tree.resolve(fn.module, node.func, fn) in {None, "builtins.dict"}:
+        out = {}
+        if len(node.args) > 1:
+            return None
+        if node.args:
+            inner = _mapping_items(tree, fn, rd, node.args[0], depth + 1)
+            if inner is None:
+                return None
+            out.update(inner)
+        for k in node.keywords:
+            if k.arg is None:
+                inner = _mapping_items(tree, fn, rd, k.value, depth + 1)
+                if inner is None:
+                    return None
+                out.update(inner)
+            else:
+                out[k.arg] = k.value
+        return out
+    if isinstance(node, ast.BinOp) and isinstance(node.op, ast.BitOr):
+        left, right = _mapping_items(tree, fn, rd, node.left, depth + 1), _mapping_items(tree, fn, rd, node.right, depth + 1)
+        return None if left is None or right is None else {**left, **right}
+    return None
+
+
+def _positional(rd: RD, args: list[ast.AST]) -> list[ast.AST] | None:
+    """The positional arguments with ``*t`` expanded when ``t`` is a tuple / list display (or a local bound once to
+    one); None if a starred argument cannot be expanded."""
+    out: list[ast.AST] = []
+    for a in args:
+        if not isinstance(a, ast.Starred):
+            out.append(a)
+            continue
+        v = a.value
+        if isinstance(v, ast.Name):
+            v = _single_value(rd, v) or v
+        if not isinstance(v, (ast.Tuple, ast.List)) or any(isinstance(e, ast.Starred) for e in v.elts):
+            return None
+        out.extend(v.elts)
+    return out
+
+
+class _Supplied:
+    """What one call site hands to the callee: positional arguments, keywords, and whether everything is known."""
+
+    def __init__(self, tree: Tree, fn: FuncInfo, rd: RD, call: ast.Call, skip_first: int = 0) -> None:
+        self.pos = _positional(rd, call.args[skip_first:])
+        self.kw: dict[str, ast.AST] = {}
+        self.open: list[str] = [] if self.pos is not None else ["a *argument that is not a tuple display"]
+        for k in call.keywords:
+            if k.arg is not None:
+                self.kw[k.arg] = k.value
+                continue
+            items = _mapping_items(tree, fn, rd, k.value)
+            if items is None:
+                self.open.append(f"**{unparse(k.value)[:30]} (a mapping that cannot be read)")
+            else:
+                self.kw.update(items)
+
+    def get(self, sig: list[str], p: str) -> ast.AST | None:
+        if p in self.kw:
+            return self.kw[p]
+        i = sig.index(p)
+        if self.pos is not None and i < len(self.pos):
+            return self.pos[i]
+        return None
+
+
+def _call_sites(tree: Tree, fn: FuncInfo, rd: RD):
+    """(call node, callee qualname, [_Supplied ...]) for every call of a package callable in ``fn``: direct calls,
+    calls through a local alias (``make = FormFactor; make(...)``) and ``functools.partial(callee, ...)`` objects
+    together with the calls of the local they are bound to (the arguments of both add up)."""
+    partials: dict[int, tuple[ast.Call, str]] = {}  # id(partial call) -> (node, callee)
+    sites = []
+    calls = [n for n in walk_function(fn.node, nested=False) if isinstance(n, ast.Call)]
+    for call in calls:
+        callee = tree.callee(call, tree.func_of(call) or fn)
+        if callee == "functools.partial" and call.args:
+            target = tree.resolve(fn.module, call.args[0], tree.func_of(call) or fn)
+            if target is None and isinstance(call.args[0], ast.Name):
+                v = _single_value(rd, call.args[0])
+                target = tree.resolve(fn.module, v, fn) if v is not None else None
+            if target and target.startswith("ampform"):
+                partials[id(call)] = (call, target)
+            continue
+        if callee is None and isinstance(call.func, ast.Name):
+            v = _single_value(rd, call.func)
+            if v is not None and id(v) in partials:
+                continue  # handled with the partial below
+            if isinstance(v, (ast.Name, ast.Attribute)):
+                callee = tree.resolve(fn.module, v, fn)
+        if callee is not None and callee.startswith("ampform"):
+            sites.append((call, callee, [_Supplied(tree, fn, rd, call)], True))
+    for pid_, (pcall, target) in partials.items():
+        first = _Supplied(tree, fn, rd, pcall, skip_first=1)
+        later = []
+        complete = False
+        for call in calls:
+            if isinstance(call.func, ast.Name):
+                v = _single_value(rd, call.func)
+                if v is pcall:
+                    later.append(_Supplied(tree, fn, rd, call))
+                    complete = True
+        # the partial object may also be handed on (returned, stored): then the later arguments are not all known
+        uses = [n for n in walk_function(fn.node, nested=False) if isinstance(n, ast.Name) and isinstance(n.ctx, ast.Load) and _single_value(rd, n) is pcall]
+        called = {id(c.func) for c in calls}
+        if any(id(u) not in called for u in uses) or not uses:
+            complete = False
+        if later:
+            for l_ in later:
+                sites.append((pcall, target, [first, l_], complete))
+        else:
+            sites.append((pcall, target, [first], False))
+    return sites
+
+
+def _definitely_unrelated(rd: RD, arg: ast.AST) -> bool:
+    """The value handed over is built from literals, module-level names and other parameters only (nothing that
+    could carry the caller's value in a way this rule does not follow: no call, attribute or subscript)."""
+    exprs = [arg, *[d.value for d in rd.closure(rd.uses(arg)) if d.value is not None]]
+    for e in exprs:
+        for n in ast.walk(e):
+            if isinstance(n, (ast.Call, ast.Attribute, ast.Subscript, ast.Starred, ast.Lambda, ast.Await, ast.Yield, ast.YieldFrom)):
+                return False
+    return not any(d.kind not in {"assign", "param"} for d in rd.closure(rd.uses(arg)))
+
+
+def _derives_through_helpers(tree: Tree, top: FuncInfo, rd: RD, arg: ast.AST, p: str, src: dict) -> bool | None:
+    """The value comes out of a helper of the package (`phsp_factor=self._phsp()`): the call is replaced by the value
+    it returns (sa/inline.py CallInliner) and the caller's own `p` is looked for in that expression.  True: it is
+    there; False: the expression is built from literals / module-level names / other parameters only (definitely not
+    the caller's value); None: still not readable."""
+    from ..inline import CallInliner
+
+    try:
+        e = CallInliner(tree, top, rd).expr(arg)
+    except Exception:  # noqa: BLE001 - an expression the inliner cannot rewrite stays undecided
+        return None
+    simple = True
+    for n in ast.walk(e):
+        if isinstance(n, ast.Name) and isinstance(n.ctx, ast.Load):
+            origin = getattr(n, "_origin", n)
+            defs = rd.reaching(origin) if origin is not n or hasattr(n, "_parent") else set()
+            if n.id == p and src["param"] and (not defs or any(d.kind == "param" for d in defs)):
+                return True
+            if any(d.kind != "param" for d in defs):
+                simple = False
+        elif isinstance(n, ast.Attribute) and n.attr.lstrip("_") == p and isinstance(n.value, ast.Name):
+            if (n.value.id == "self" and src["self_attr"]) or (n.value.id in src["param_attr"] and n.attr == p):
+                return True
+            simple = False
+        elif isinstance(n, (ast.Call, ast.Attribute, ast.Subscript, ast.Starred, ast.Lambda, ast.Await, ast.Yield, ast.YieldFrom)):
+            simple = False
+    return False if simple else None
+
+
 def check_forward(ctx: Check, tree: Tree) -> None:
+    """R-FORWARD at keyword level.  Three-valued: a parameter that is definitely not handed on (every argument of the
+    call is known and none binds it) or is bound to a value built without the caller's own value is a violation; a call
+    whose arguments cannot all be read (an opaque ``**mapping`` / ``*args``, a functools.partial that leaves the
+    function, a value that comes out of a call or an attribute this rule does not follow) cannot be decided."""
     classes = expression_classes(tree)
     n_triples = 0
+    undecided: list[str] = []
     for q, fn in sorted(tree.funcs.items()):
         if not q.startswith(DYN_MODULES):
             continue
@@ -116,9 +325,7 @@ def check_forward(ctx: Check, tree: Tree) -> None:
         while top.outer is not None:
             top = top.outer
         rd_top = RD(top.node)
-        for call, callee in tree.calls_in(fn, nested=False):
-            if callee is None or not callee.startswith("ampform"):
-                continue
+        for call, callee, supplied, complete in _call_sites(tree, fn, rd_top):
             sig = callee_signature(tree, callee, classes)
             if sig is None:
                 continue
@@ -126,29 +333,26 @@ def check_forward(ctx: Check, tree: Tree) -> None:
                 if p not in sig:
                     continue
                 n_triples += 1
-                arg = next((k.value for k in call.keywords if k.arg == p), None)
-                if arg is None:
-                    # **mapping with a literal dict that supplies the parameter
-                    for k in call.keywords:
-                        if k.arg is None:
-                            cand = [k.value] + [d.value for d in rd_top.reaching(k.value) if d.value is not None] if isinstance(k.value, ast.Name) else [k.value]
-                            for dnode in cand:
-                                if isinstance(dnode, ast.Dict):
-                                    for kk, vv in zip(dnode.keys, dnode.values):
-                                        if isinstance(kk, ast.Constant) and kk.value == p:
-                                            arg = vv
-                if arg is None:
-                    i = sig.index(p)
-                    if i < len(call.args) and not any(isinstance(a, ast.Starred) for a in call.args[: i + 1]):
-                        arg = call.args[i]
+                arg = next((a for a in (s_.get(sig, p) for s_ in reversed(supplied)) if a is not None), None)
                 short = callee.split("::")[-1]
                 key = f"{q}::call {short}::{p}"
                 what = f"{q} -> {short}(... {p}=...)"
                 if arg is None:
+                    gaps = [g for s_ in supplied for g in s_.open] + ([] if complete else ["a functools.partial whose later arguments are not all visible"])
+                    if gaps:
+                        undecided.append(f"{what} at {tree.loc(call)}: `{p}` is not among the readable arguments and the call has {'; '.join(gaps)}")
+                        continue
                     ctx.violation("R-FORWARD", key, tree.loc(call), f"{what}: `{p}` is accepted by the caller but not passed; the callee falls back to its default",
                                   {"caller_has": [k for k, v in src.items() if v], "callee_signature": sig})
                     continue
                 ok = arg_derives(tree, fn, rd_top, arg, p, src)
+                unrelated = _definitely_unrelated(rd_top, arg)
+                if not ok and not unrelated:
+                    through = _derives_through_helpers(tree, top, rd_top, arg, p, src)
+                    ok, unrelated = through is True, through is False
+                if not ok and not unrelated:
+                    undecided.append(f"{what} at {tree.loc(call)}: whether `{unparse(arg)[:40]}` carries the caller's `{p}` cannot be read off (it comes out of a call / attribute / subscript)")
+                    continue
                 ctx.verdict(ok, "R-FORWARD", key, tree.loc(call), f"{what}: passes `{unparse(arg)[:40]}`",
                             None if ok else f"the value passed for `{p}` does not derive from the caller's own `{p}`")
         # accepted and never used
@@ -156,10 +360,15 @@ def check_forward(ctx: Check, tree: Tree) -> None:
             if p in fn.params:
                 used = any(isinstance(n, ast.Name) and n.id == p and isinstance(n.ctx, ast.Load) for n in walk_function(fn.node))
                 if not used and not _is_abstract_or_stub(fn):
+                    if fn.node.args.kwarg is not None and any(isinstance(n, ast.Name) and n.id in {"locals", "vars"} for n in walk_function(fn.node)):
+                        undecided.append(f"{q}: `{p}` may be read through locals()")
+                        continue
                     ctx.violation("R-FORWARD", f"{q}::unused::{p}", tree.loc(fn.node), f"{q} accepts `{p}` and never uses it")
     ctx.stats["forward_triples"] = n_triples
-    if n_triples < 18:
-        raise AnalysisError(f"only {n_triples} (caller, callee, parameter) triples found (25 confirmed by hand)")
+    if undecided:
+        raise AnalysisError("R-FORWARD cannot decide: " + " | ".join(undecided[:4]) + (f" (+{len(undecided) - 4} more)" if len(undecided) > 4 else ""))
+    if n_triples < 12:
+        raise AnalysisError(f"only {n_triples} (caller, callee, parameter) triples found (29 on the pinned tree)")
 
 
 def check_radius_reaches_barriers(ctx: Check, tree: Tree) -> None:
@@ -219,8 +428,8 @@ def _is_abstract_or_stub(fn: FuncInfo) -> bool:
     return not body or any("abstractmethod" in unparse(d) or "overload" in unparse(d) for d in fn.node.decorator_list)
 
 
-def accepted_f(rel: bool, return_hat: bool) -> list[NC]:
-    K, P, rho, one = NC.sym("K"), NC.sym("P"), NC.sym("rho"), NC.eye()
+def accepted_f(rel: bool, return_hat: bool, rho_name: str = "rho") -> list[NC]:
+    K, P, rho, one = NC.sym("K"), NC.sym("P"), NC.sym(rho_name), NC.eye()
     if not rel:
         return [(one - I * K).inv() * P]
     sq = nc_func("sqrt", rho)
@@ -233,97 +442,108 @@ def accepted_f(rel: bool, return_hat: bool) -> list[NC]:
 
 
 def check_f_vector(ctx: Check, tree: Tree, cls_name: str, rel: bool) -> None:
-    fn = tree.func(f"{MOD}::{cls_name}._create_matrices")
-    nce = NCEval(tree)
-    flags_list = [{"return_f_hat": False}, {"return_f_hat": True}] if "return_f_hat" in fn.params else [{}]
+    """The F-vector for a generic number of channels (non-commutative normal form) is one of the accepted forms;
+    a term that is not is refuted - or not - on explicit matrices (see c09.decide_matrix_formula).  Decided on the
+    cached builder and on the public formulate(parametrize=False)."""
+    from ..dense import spec_f
+    from .c09 import decide_matrix_formula
+
+    formulate = tree.func(f"{MOD}::{cls_name}.formulate")
+    builder = tree.funcs.get(f"{MOD}::{cls_name}._create_matrices")
+    flag = "return_f_hat"
+    flags_list = [{flag: False}, {flag: True}] if flag in formulate.params else [{}]
+    if "parametrize" not in formulate.params:
+        raise AnalysisError(f"vanished anchor: {formulate.qual} has no parameter `parametrize`")
+    if rel != (len(flags_list) == 2):
+        raise AnalysisError(f"{formulate.qual}: parameter `{flag}` {'missing' if rel else 'unexpected'}")
     for flags in flags_list:
-        res = nce.run(fn, dict(flags))
-        if not res or not isinstance(res[0], NC):
-            raise AnalysisError(f"{fn.qual}: no matrix term returned")
-        got = res[0]
-        acc = accepted_f(rel, flags.get("return_f_hat", False))
-        ok = any(got == a for a in acc)
+        hat = flags.get(flag, False)
         what = {
             (False, False): "F = (1 - iK)^-1 P",
             (True, True): "F^ = (1 - i K^ rho)^-1 P with K^ = conj(sqrt rho)^-1 K sqrt(rho)^-1",
             (True, False): "F = sqrt(rho) (1 - i K^ rho)^-1 P",
-        }[(rel, flags.get("return_f_hat", False))]
-        ctx.verdict(ok, "R-TERM-NC", f"{fn.qual}::{sorted(flags.items())}", tree.loc(fn.node),
-                    f"{cls_name}._create_matrices{flags or ''}: {what}", None if ok else {"got": got.show(), "accepted": [a.show() for a in acc]})
-        ok2 = len(res) == 3 and res[1] == NC.sym("K") and res[2] == NC.sym("P")
-        ctx.verdict(ok2, "R-TERM-NC", f"{fn.qual}::returns-K-P::{sorted(flags.items())}", tree.loc(fn.node),
-                    f"{cls_name}._create_matrices returns (F, K, P) with the symbol matrices that are parametrised")
+        }[(rel, hat)]
+        accepted = lambda name, hat=hat: accepted_f(rel, hat, name)  # noqa: E731
+        spec = lambda n, model, m, hat=hat: spec_f(rel, hat, n, model, m)  # noqa: E731
+        if builder is not None and any(k not in builder.params for k in flags):
+            ctx.info("R-TERM-NC", tree.loc(builder.node), f"{cls_name}._create_matrices has no parameter `{flag}`: what it returns is judged through formulate(parametrize=False)")
+        elif builder is not None:
+            res = decide_matrix_formula(ctx, tree, builder, dict(flags), f"{builder.qual}::{sorted(flags.items())}", f"{cls_name}._create_matrices{flags or ''}: {what}", accepted, spec)
+            if len(res) == 3 and all(isinstance(x, NC) for x in res):
+                ok2 = res[1] == NC.sym("K") and res[2] == NC.sym("P")
+                ctx.verdict(ok2, "R-TERM-NC", f"{builder.qual}::returns-K-P::{sorted(flags.items())}", tree.loc(builder.node),
+                            f"{cls_name}._create_matrices returns (F, K, P) with the symbol matrices that are parametrised",
+                            None if ok2 else {"second": res[1].show(), "third": res[2].show()})
+            else:
+                ctx.info("R-TERM-NC", tree.loc(builder.node), f"{cls_name}._create_matrices does not return three matrices: which symbols are parametrised is judged on formulate() (R-WIRING)")
+        else:
+            ctx.info("R-TERM-NC", tree.loc(formulate.node), f"{cls_name} has no _create_matrices: the vector is read off formulate(parametrize=False)")
+        decide_matrix_formula(ctx, tree, formulate, {**flags, "parametrize": False}, f"{formulate.qual}::unparametrized::{sorted(flags.items())}",
+                              f"{cls_name}.formulate(parametrize=False{''.join(f', {k}={v}' for k, v in flags.items())}): {what}", accepted, spec)
 
 
 def check_pvector_wiring(ctx: Check, tree: Tree) -> None:
-    pairs = {"NonRelativisticPVector": "NonRelativisticKMatrix", "RelativisticPVector": "RelativisticKMatrix"}
-    for pv, km in pairs.items():
-        fn = tree.func(f"{MOD}::{pv}.formulate")
-        rd = RD(fn.node)
-        seen = {"K": False, "P": False}
+    """formulate() of the production vectors, interpreted for two channels on explicit matrices (c09.FormulateRun):
+    every K[i,j] the vector depends on is replaced by the K-matrix class's parametrization(i, j), every P[i] by the
+    class's own parametrization(i), both with the same pole symbols and the caller's choices."""
+    from ..dense import spec_f
+    from .c09 import check_forwarded, formulate_run
 
-        class _Item:  # one `K[i, j] -> parametrization(...)` pair: an item of a dict comprehension or a store `D[K[i, j]] = ...`
-            def __init__(self, node, key, value):
-                self.node, self.key, self.value = node, key, value
-
-        items = []
-        for n_ in walk_function(fn.node):
-            if isinstance(n_, ast.DictComp) and isinstance(n_.key, ast.Subscript) and isinstance(n_.value, ast.Call):
-                items.append(_Item(n_, n_.key, n_.value))
-            elif (isinstance(n_, ast.Assign) and len(n_.targets) == 1 and isinstance(n_.targets[0], ast.Subscript) and isinstance(n_.targets[0].slice, ast.Subscript)
-                  and isinstance(n_.value, ast.Call)):
-                items.append(_Item(n_, n_.targets[0].slice, n_.value))
-        for node in items:
-            callee = tree.callee(node.value, fn)
-            if callee is None or not callee.endswith(".parametrization"):
-                if isinstance(node.node, ast.Assign):
-                    continue  # another kind of store (e.g. rho_i -> phase-space factor)
-            base = node.key.value
-            base_defs = rd.reaching(base) if isinstance(base, ast.Name) else set()
-            pos = {d.index for d in base_defs}
-            kw = {k.arg: unparse(k.value) for k in node.value.keywords}
-            idx = unparse(node.key.slice).replace(" ", "").strip("()")
-            if callee == f"{MOD}::{km}.parametrization":
-                seen["K"] = True
-                ok = pos == {1} and idx == f"{kw.get('i')},{kw.get('j')}"
-                ctx.verdict(ok, "R-WIRING", f"{fn.qual}::K[i,j]->{km}.parametrization", tree.loc(node.node),
-                            f"{pv}.formulate: {unparse(node.key)} (2nd element of _create_matrices) -> {km}.parametrization(i={kw.get('i')}, j={kw.get('j')})",
-                            None if ok else {"tuple_position": sorted(map(str, pos)), "index": idx})
-            elif callee == f"{MOD}::{pv}.parametrization":
-                seen["P"] = True
-                ok = pos == {2} and idx == f"{kw.get('i')}"
-                ctx.verdict(ok, "R-WIRING", f"{fn.qual}::P[i]->parametrization", tree.loc(node.node),
-                            f"{pv}.formulate: {unparse(node.key)} (3rd element of _create_matrices) -> {pv}.parametrization(i={kw.get('i')})",
-                            None if ok else {"tuple_position": sorted(map(str, pos)), "index": idx})
-            else:
-                ctx.violation("R-WIRING", f"{fn.qual}::foreign-parametrization::{callee}", tree.loc(node.node),
-                              f"{pv}.formulate substitutes {unparse(node.key)} by {callee}: not the library's own K/P parametrisation")
-        if not all(seen.values()):
-            raise AnalysisError(f"{fn.qual}: K / P substitution not found ({seen})")
-        # the same pole symbols feed K and P (so that the poles of P are the poles of K)
-        shared = ("s", "pole_position", "pole_width", "residue_constant", "pole_id", "n_poles")
-        calls = [it.value for it in items]
-        kcall = next(c for c in calls if (tree.callee(c, fn) or "").endswith(f"{km}.parametrization"))
-        pcall = next(c for c in calls if (tree.callee(c, fn) or "").endswith(f"{pv}.parametrization"))
-        from ..inline import Inliner
-
-        inl = Inliner(fn.node, rd)
-        for name in shared:
-            ka = next((k.value for k in kcall.keywords if k.arg == name), None)
-            pa = next((k.value for k in pcall.keywords if k.arg == name), None)
-            if ka is None or pa is None:
+    pairs = {"NonRelativisticPVector": ("NonRelativisticKMatrix", False), "RelativisticPVector": ("RelativisticKMatrix", True)}
+    for pv, (km, rel) in pairs.items():
+        run = formulate_run(tree, pv)
+        fn, n = run.fn, run.N
+        where = tree.loc(fn.node)
+        diff = run.matrix_difference(lambda n_, model, m_: spec_f(rel, False, n_, model, m_))
+        ctx.verdict(diff is None, "R-TERM-NC", f"{fn.qual}::parametrized", where,
+                    f"{pv}.formulate(parametrize=True), two channels: the vector into which the parametrisations are substituted is the F-vector of the defining formula (no further algebra)",
+                    None if diff is None else {"difference": diff})
+        refs: dict[str, dict] = {}
+        targets = [(f"K{a}{b}", f"K[{a}, {b}]", f"{MOD}::{km}.parametrization", {"i": a, "j": b}, f"{fn.qual}::K[i,j]->{km}.parametrization") for a in range(n) for b in range(n)]
+        targets += [(f"P{a}0", f"P[{a}]", f"{MOD}::{pv}.parametrization", {"i": a}, f"{fn.qual}::P[i]->parametrization") for a in range(n)]
+        for atom, text, want_q, want_idx, key in targets:
+            idx_text = ", ".join(f"{k}={v}" for k, v in want_idx.items())
+            what = f"{pv}.formulate: {text} -> {want_q.split('::')[-1]}({idx_text})"
+            if atom not in run.subs:
+                ctx.violation("R-WIRING", key, where, what, f"{text} is not substituted: it stays a free symbol of the result")
                 continue
-            same = ast.dump(inl.expr(ka)) == ast.dump(inl.expr(pa))
-            ctx.verdict(same, "R-WIRING", f"{fn.qual}::shared::{name}", tree.loc(pcall),
-                        f"{pv}.formulate: `{name}` of the P-vector is the `{name}` of the K-matrix ({unparse(inl.expr(pa))[:50]})",
-                        None if same else {"K": unparse(inl.expr(ka)), "P": unparse(inl.expr(pa))})
+            call = run.param_call(run.subs[atom])
+            if call is None:
+                ctx.violation("R-WIRING", key, where, what, f"{text} is replaced by {run.subs[atom]!r:.160}, which is not a (bare) call of a parametrisation")
+                continue
+            qual, bound = call
+            if qual != want_q:
+                ctx.violation("R-WIRING", f"{fn.qual}::foreign-parametrization::{qual}", where,
+                              f"{pv}.formulate substitutes {text} by {qual}: not the library's own K/P parametrisation for this class")
+                continue
+            got_idx = {k: bound.get(k) for k in want_idx}
+            ok = got_idx == want_idx
+            ctx.verdict(ok, "R-WIRING", key, where, what, None if ok else {"index": got_idx, "expected": want_idx})
+            if ok:
+                refs.setdefault(want_q, bound)
+        kb, pb = refs.get(f"{MOD}::{km}.parametrization"), refs.get(f"{MOD}::{pv}.parametrization")
+        if kb is None or pb is None:
+            continue  # reported above
+        # the same pole symbols feed K and P (so that the poles of P are the poles of K)
+        m = run.model
+        for name in ("s", "pole_position", "pole_width", "residue_constant", "pole_id", "n_poles", "m_a", "m_b", "angular_momentum", "meson_radius"):
+            if name not in kb or name not in pb:
+                continue
+            same = m.key(kb[name]) == m.key(pb[name])
+            ctx.verdict(same, "R-WIRING", f"{fn.qual}::shared::{name}", where,
+                        f"{pv}.formulate: `{name}` of the P-vector is the `{name}` of the K-matrix",
+                        None if same else {"K": str(m.key(kb[name]))[:200], "P": str(m.key(pb[name]))[:200]})
+        check_forwarded(ctx, run, kb, f"{km}.parametrization")
+        check_forwarded(ctx, run, pb, "parametrization")
 
 
 def check_memo_advisory(ctx: Check, tree: Tree) -> None:
     for cls_name in ("NonRelativisticKMatrix", "RelativisticKMatrix", "NonRelativisticPVector", "RelativisticPVector"):
-        fn = tree.func(f"{MOD}::{cls_name}._create_matrices")
+        fn = tree.funcs.get(f"{MOD}::{cls_name}._create_matrices")
+        form = tree.funcs.get(f"{MOD}::{cls_name}.formulate")
+        if fn is None or form is None:
+            continue  # an advisory only: nothing to point at
         cached = any("cache" in unparse(d) for d in fn.node.decorator_list)
-        form = tree.func(f"{MOD}::{cls_name}.formulate")
         hands_out = any(isinstance(n, ast.If) and "parametrize" in unparse(n.test) and any(isinstance(s, ast.Return) for s in n.body) for n in walk_function(form.node))
         if cached and hands_out:
             ctx.advisory("A-MEMO", tree.loc(fn.node), f"{cls_name}._create_matrices is memoised and formulate(parametrize=False) hands out the cached MutableDenseMatrix (see C06; not a clause of C10)")
@@ -335,9 +555,10 @@ def check_cached_matrices_not_mutated(ctx: Check, tree: Tree) -> None:
     for the same number of channels returns something else than the first."""
     from .c06 import AliasFlow, memoised_functions, mutable_result
 
-    sources = {f.qual: f"memoised {f.qual}" for f in memoised_functions(tree) if f.qual.startswith(MOD + "::") and mutable_result(f) and f.cls is not None and f.cls.name in ('RelativisticPVector', 'NonRelativisticPVector')}
-    if len(sources) < 2:
-        raise AnalysisError(f"only {len(sources)} memoised _create_matrices found for RelativisticPVector/NonRelativisticPVector")
+    sources = {f.qual: f"memoised {f.qual}" for f in memoised_functions(tree) if f.qual.startswith(MOD + "::") and mutable_result(f)
+               and (f.cls is None or f.cls.name in ('RelativisticPVector', 'NonRelativisticPVector'))}
+    if not sources:
+        raise AnalysisError("no memoised matrix builder found for RelativisticPVector/NonRelativisticPVector (two functools.cache'd _create_matrices confirmed): how the matrices are cached cannot be read off")
     flow = AliasFlow(tree, sources)
     flow.fixpoint()
     bad = [(fn, node, origin) for fn, node, origin in flow.mutations() if fn.qual not in sources]
@@ -347,6 +568,9 @@ def check_cached_matrices_not_mutated(ctx: Check, tree: Tree) -> None:
                       "the cached matrix is shared by all later calls with the same n_channels: the second formulate() starts from the already modified matrix")
     if not bad:
         ctx.ok("R-CACHE", MOD.replace(".", "/"), f"the {len(sources)} memoised matrix builders' results are only read / substituted (xreplace), never written")
+    from .c09 import second_call_agrees
+
+    second_call_agrees(ctx, tree, ("NonRelativisticPVector", "RelativisticPVector"))
 
 
 def check_no_rebuild(ctx: Check, tree: Tree) -> None:
@@ -444,16 +668,23 @@ def check_bw_reduction(ctx: Check, tree: Tree) -> None:
         ctx.verdict(ok, "R-TERM", f"{fn.qual}::pole-sum", tree.loc(fn.node), f"{cls_name}.parametrization sums over (pole_id, 1, n_poles)",
                     None if ok else repr(limits)[:120])
     # general i, j: the residue structure of the K-matrix
-    specs = {
-        "NonRelativisticKMatrix": ("pole_width[pole_id, {c}]", {}),
-        "RelativisticKMatrix": ("EnergyDependentWidth(s=s, mass0=pole_position[pole_id], gamma0=pole_width[pole_id, {c}], m_a=m_a[{c}], m_b=m_b[{c}], angular_momentum=angular_momentum, meson_radius=meson_radius, phsp_factor=phsp_factor)", {}),
-    }
-    for cls_name, (w, _) in specs.items():
+    # (the specification is built from values, not parsed from text: it does not depend on how the module imports SymPy)
+    from ..poly import sqrt as rf_sqrt
+
+    for cls_name in ("NonRelativisticKMatrix", "RelativisticKMatrix"):
         fn, got, limits = _summand(te, tree, cls_name, {})
         e = {p: sym(p) for p in fn.params}
-        spec = ("residue_constant[pole_id, i] * sp.sqrt(pole_position[pole_id] * " + w.format(c="i") + ") * residue_constant[pole_id, j] * sp.sqrt(pole_position[pole_id] * "
-                + w.format(c="j") + ") / (pole_position[pole_id] ** 2 - s)")
-        want = ev(fn, spec, e)
+        mass = ev(fn, "pole_position[pole_id]", e)
+
+        def width(c: str, fn=fn, e=e, mass=mass, cls_name=cls_name):
+            gamma = ev(fn, f"pole_width[pole_id, {c}]", e)
+            if "Non" in cls_name:
+                return gamma
+            return te.construct("ampform.dynamics::EnergyDependentWidth", [], {
+                "s": sym("s"), "mass0": mass, "gamma0": gamma, "m_a": ev(fn, f"m_a[{c}]", e), "m_b": ev(fn, f"m_b[{c}]", e),
+                "angular_momentum": sym("angular_momentum"), "meson_radius": sym("meson_radius"), "phsp_factor": sym("phsp_factor")})
+
+        want = (ev(fn, "residue_constant[pole_id, i]", e) * rf_sqrt(mass * width("i")) * ev(fn, "residue_constant[pole_id, j]", e) * rf_sqrt(mass * width("j"))) / (mass**2 - sym("s"))
         ok = equal(got, want)
         ctx.verdict(ok, "R-TERM", f"{fn.qual}::residue-structure", tree.loc(fn.node),
                     f"{cls_name}.parametrization summand == gamma_Ri gamma_Rj sqrt(m_R W_Ri) sqrt(m_R W_Rj) / (m_R^2 - s), W = {'Gamma_Ri' if 'Non' in cls_name else 'EnergyDependentWidth of channel i with the forwarded L, d, phsp_factor'}",
@@ -463,9 +694,9 @@ def check_bw_reduction(ctx: Check, tree: Tree) -> None:
 def run(ctx: Check, tree: Tree) -> None:
     ctx.decided += [
         "R-FORWARD (term level): every barrier factor inside EnergyDependentWidth depends on the caller's meson_radius and angular_momentum",
-        "every (caller, callee, parameter) triple over {phsp_factor, angular_momentum, meson_radius} in ampform.dynamics forwards the caller's value (R-FORWARD)",
-        "F = (1-iK)^-1 P; F^ = (1 - i K^ rho)^-1 P with K^ = conj(sqrt rho)^-1 K sqrt(rho)^-1, F = sqrt(rho) F^ (R-TERM-NC)",
-        "K[i,j] and P[i] are substituted by the library's own parametrisations with matching indices and shared pole symbols (R-WIRING)",
+        "every (caller, callee, parameter) triple over {phsp_factor, angular_momentum, meson_radius} in ampform.dynamics forwards the caller's value (R-FORWARD): arguments are read through keywords, positions, `*tuple`, `**mapping` displays, local aliases of the callee, functools.partial and helper functions that return the value; a call whose arguments cannot all be read is undecided, never a violation",
+        "F = (1-iK)^-1 P; F^ = (1 - i K^ rho)^-1 P with K^ = conj(sqrt rho)^-1 K sqrt(rho)^-1, F = sqrt(rho) F^ - the builders and formulate(parametrize=False) interpreted on non-commutative model matrices for a generic number of channels; a term outside the accepted forms is a violation only with a counter-model on explicit matrices (or if it inverts K itself) (R-TERM-NC)",
+        "formulate(parametrize=True) interpreted for two channels on explicit matrices: every K[i,j] / P[i] the vector depends on is substituted by the library's own parametrisations with matching indices, shared pole symbols and the caller's choices; a second call returns the same vector (R-WIRING, R-FORWARD, R-CACHE)",
         "the rho_i placeholders of producer and consumers agree and carry no assumptions (R-SYMPAIR, R-PLACEHOLDER); the hashable content of an expression determines a class/function-valued phsp_factor, so SymPy's expression cache cannot hand out a node with another caller's factor (R-INJECTIVE)",
         "no expression that may contain a class with a non-sympified phsp_factor/angular_momentum/meson_radius is passed to a SymPy operation that rebuilds nodes from .args (R-REBUILD)",
     ]
